@@ -290,3 +290,59 @@ func complement(f string) string {
 	}
 	return "\x00"
 }
+
+// EnumLoopIterPaths enumerates the acyclic paths through one iteration of loop
+// (a *ast.RangeStmt or *ast.ForStmt of f): from the first block of the body to
+// the loop head (next iteration), the loop exit, or a function exit.
+func (p *Program) EnumLoopIterPaths(f *FuncSrc, loop ast.Stmt, limit int) ([][]ast.Node, bool) {
+	g := p.CFG(f)
+	var body, head *cfg.Block
+	for _, b := range g.Blocks {
+		if b.Stmt != loop {
+			continue
+		}
+		switch b.Kind {
+		case cfg.KindRangeBody, cfg.KindForBody:
+			body = b
+		case cfg.KindRangeLoop, cfg.KindForLoop:
+			head = b
+		}
+	}
+	if body == nil {
+		return nil, false
+	}
+	if head == nil {
+		head = body // for {} without condition: back edge targets the body
+	}
+	var out [][]ast.Node
+	over := false
+	var walk func(b *cfg.Block, nodes []ast.Node, on map[*cfg.Block]bool)
+	walk = func(b *cfg.Block, nodes []ast.Node, on map[*cfg.Block]bool) {
+		if over {
+			return
+		}
+		nodes = append(nodes, b.Nodes...)
+		if len(b.Succs) == 0 {
+			out = append(out, append([]ast.Node{}, nodes...))
+			return
+		}
+		for _, s := range b.Succs {
+			if s == head || (s.Stmt == loop && (s.Kind == cfg.KindRangeDone || s.Kind == cfg.KindForDone || s.Kind == cfg.KindForPost)) {
+				if len(out) >= limit {
+					over = true
+					return
+				}
+				out = append(out, append([]ast.Node{}, nodes...))
+				continue
+			}
+			if on[s] {
+				continue
+			}
+			on[s] = true
+			walk(s, nodes, on)
+			delete(on, s)
+		}
+	}
+	walk(body, nil, map[*cfg.Block]bool{body: true})
+	return out, !over
+}
